@@ -1011,8 +1011,13 @@ func c47Open(t *testing.T, dir string) (*c47Handles, *c47Handles) {
 }
 
 func TestVerifC47(t *testing.T) {
-	out := vOpen("cases_c47.txt")
+	// two files, evaluated in this order: the readers both backends are meant to agree on first, the
+	// readers with a recorded key-value deviation (qlimres qtop qonlall qhist qstub) last
+	out := vOpen("cases_c47_a.txt")
 	defer out.Close()
+	outRec := vOpen("cases_c47_b_recorded.txt")
+	defer outRec.Close()
+	recorded := map[string]bool{"qlimres": true, "qtop": true, "qonlall": true, "qhist": true, "qstub": true}
 	outRoot := os.Getenv("VERIF_OUT")
 	if outRoot == "" {
 		outRoot = t.TempDir()
@@ -1054,8 +1059,13 @@ func TestVerifC47(t *testing.T) {
 			for i := 0; i < nQuery; i++ {
 				q := g.query()
 				so, ko := q.run(hs), q.run(hk)
-				out.Case(append([]interface{}{}, ops...), q.term, so, ko)
-				qKinds[string(q.term[0].(vSym))]++
+				kind := string(q.term[0].(vSym))
+				if recorded[kind] {
+					outRec.Case(append([]interface{}{}, ops...), q.term, so, ko)
+				} else {
+					out.Case(append([]interface{}{}, ops...), q.term, so, ko)
+				}
+				qKinds[kind]++
 			}
 			lens[len(ops)/10*10]++
 		}
